@@ -42,3 +42,10 @@ Theorem C10_bad_logout_signature_fatal : forall dsig cfg root,
   (exists e, validate_logout_request_tree dsig cfg root = Err e).
 Proof. exact logout_bad_signature_fatal. Qed.
 Print Assumptions C10_bad_logout_signature_fatal.
+
+(* the flags cannot be supplied by the sender: the SignatureValidated fields of all four decoded structs carry the
+   struct tag xml:"-" in the CURRENT source (re-extracted on every run) *)
+Theorem C10_flag_fields_not_decodable :
+  forallb flag_field_is_skipped ["Response"; "Assertion"; "LogoutResponse"; "LogoutRequest"]%string = true.
+Proof. exact flag_fields_not_decodable. Qed.
+Print Assumptions C10_flag_fields_not_decodable.
